@@ -76,6 +76,15 @@ REDUCED = [
 ]
 
 
+# layouts whose arithmetic (edge + padding, width - paddings) or whose printing lands a hair away from a multiple of ten
+NOISY = [
+    (("7.8", "17.8"), ("32.2", "40"), ("2.2", "0", "2.2", "0"), None),
+    (("29.999", "40.004"), ("10.001", "19.996"), None, None),
+    (("16.1", "6.1"), ("16.1", "26.1"), ("3.9", "0", "3.9", "6.1"), ("left", "top")),
+    (("0.004", "9.996"), ("99.996", "50.004"), None, None),
+]
+
+
 def mk_layout(spec):
     from pycaption.geometry import Alignment, HorizontalAlignmentEnum, Layout, Padding, Point, Size, Stretch, UnitEnum, VerticalAlignmentEnum
 
@@ -96,14 +105,14 @@ def norm_spec(spec, fit=False):
     if spec is None:
         spec = (None, None, None, None)
     o, e, p, a = spec
-    f = lambda x: round(float(x), 4)
+    f = lambda x: round(float(x) + 1e-9, 2)  # a DFXP round trip prints lengths with two decimals
     no = (f(o[0]), f(o[1])) if o else None
     ne = (f(e[0]), f(e[1])) if e else None
     np_ = tuple(f(x) for x in p) if p else None
     na = (a[0], a[1]) if a else ("start", "bottom")
     out = {(no, ne, np_, na)}
     if fit and o:
-        rx, ry = round(90 - float(o[0]), 4), round(95 - float(o[1]), 4)
+        rx, ry = f(90 - float(o[0])), f(95 - float(o[1]))
         if e is None:
             fe = (rx, ry)
         else:
@@ -115,7 +124,7 @@ def norm_spec(spec, fit=False):
 def norm_real(layout):
     if layout is None:
         return (None, None, None, ("start", "bottom"))
-    f = lambda s: round(s.value, 4)
+    f = lambda s: round(s.value + 1e-9, 2)
     def unit_ok(s):
         return s.unit.value == "%"
     o = (f(layout.origin.x), f(layout.origin.y)) if layout.origin else None
@@ -547,6 +556,12 @@ def run_shard(d):
             for kind in ("span", "bare"):
                 for fit in (False, True):
                     run(eval_vtt, {"lang": None, "captions": [{"layout": None, "parts": [("t0", a, kind), ("t1", b, kind)]}, {"layout": a, "parts": [("t2", None, "plain")]}], "klass": "vtt-two-nodes-" + kind}, fit)
+        for a in NOISY:
+            for fit in (False, True):
+                for level in ("lang", "caption", "span"):
+                    desc = single_level_desc(a, level)
+                    run(eval_vtt, dict(desc, klass="vtt-noisy-arithmetic-" + level), fit)
+                    run(eval_dfxp, dict(desc, klass="noisy-values-" + level), fit)
         # one Layout object positions several captions (equal layouts of a set share the object)
         for a in withorigin:
             for fit in (False, True):
